@@ -1,6 +1,1247 @@
-(** Lemmas for C06 about the importer model (Raw/RawGds.v) against the specification
-    (Raw/RawGdsSpec.v). *)
-From Coq Require Import ZArith List String Bool Lia.
-From L21 Require Import Base.F64 Raw.RawData Raw.RawGds Raw.RawFlatten Raw.RawGdsSpec.
+(** Lemmas for C06: the importer model (Raw/RawGds.v) and the model of `Layout::flatten`
+    (Raw/RawFlatten.v) against the specification (Raw/RawGdsSpec.v).
+
+    Part 1  single elements: boundary (both rectangle patterns), box, path -- the imported shape
+            stands for the geometry the GDSII element states ([shape_rel]), on its layer / datatype.
+    Part 2  references: an SREF gives one instance whose exact transform is the specification's
+            placement (via C12's [from_instance_Z_spec]); an AREF gives cols x rows instances on
+            the lattice of the three XY points.
+    Part 3  layer tables: [get_or_insert] keeps every earlier (key, purpose) resolving to the same
+            (layer, datatype) numbers.
+    Part 4  a whole struct: [import_layout] relates the elements of the struct, in order, to the
+            elements and instances of the layout ([items_rel]).
+    Part 5  flattened lists: [flat_rel] (raw elements against specification shapes, up to order), kept by
+            right-angle placements ([rect4_place]: the rectangle pattern survives), and implying the
+            property's [flat_equiv].
+    Part 6  the whole library: [import_structs] keeps [lib_inv] -- every name in the cell map stands for
+            the struct of that name, imported into the cell at that position from earlier cells only.
+    Part 7  the simulation [sim_all], by induction on the position of a cell: whenever the specification's
+            [flatten_struct] is not silent it is [SOk fs] and the cell's flattening is related to fs.
+    Part 8  [import_flatten_gen], [import_ok_not_malformed]. *)
+From Coq Require Import ZArith NArith List String Bool Lia Permutation Arith Wf_nat.
+From L21 Require Import Base.F64 Base.Hex Raw.RawData Raw.RawGds Raw.RawFlatten Raw.RawFlatten_proofs.
+From L21 Require Gds.GdsData Raw.RawGdsSpec Geom.Transform Geom.TransformSpec Geom.Transform_proofs.
+From L21 Require Order.DepOrder Order.DepOrderSpec Order.DepOrderFixed Order.DepOrderFixed_proofs.
 Import ListNotations.
 Local Open Scope Z_scope.
+Module G := Gds.GdsData.
+Module S := Raw.RawGdsSpec.
+Module T := Geom.Transform.
+Module TS := Geom.TransformSpec.
+
+
+(* ---- p1.v ---- *)
+(** * Shapes *)
+Inductive shape_rel : shape -> S.geom -> Prop :=
+| SR_poly : forall pts, shape_rel (Polygon pts) (S.GPoly (map S.rpt pts))
+| SR_rect : forall a b c d, S.rect4 (S.rpt a) b (S.rpt c) d = true ->
+                            shape_rel (Rect a c) (S.GPoly [S.rpt a; b; S.rpt c; d])
+| SR_path : forall pts w, shape_rel (Path pts w) (S.GPath (map S.rpt pts) w).
+
+Lemma shape_rel_norm : forall sh gm, shape_rel sh gm -> S.norm_raw_shape sh = S.norm_geom gm.
+Proof.
+  intros sh gm H. destruct H as [pts | a b c d H | pts w]; cbn [S.norm_raw_shape S.norm_geom].
+  - reflexivity.
+  - unfold S.norm_poly. rewrite H. reflexivity.
+  - reflexivity.
+Qed.
+
+Lemma rpt_import_point : forall p, S.rpt (import_point p) = S.gpt p.
+Proof. intros [x y]. reflexivity. Qed.
+Lemma map_rpt_import : forall l, map S.rpt (map import_point l) = map S.gpt l.
+Proof. intro l. rewrite map_map. apply map_ext. exact rpt_import_point. Qed.
+
+Lemma pt_eqb_rpt : forall a b, S.pt_eqb (S.rpt a) (S.rpt b) = pt_eqb a b.
+Proof. intros [ax ay] [bx by_]. reflexivity. Qed.
+
+Lemma last_map : forall (A B : Type) (f : A -> B) l d, last (map f l) (f d) = f (last l d).
+Proof.
+  intros A B f l d. induction l as [|x l IH]; [reflexivity|].
+  destruct l as [|y l]; [reflexivity|]. cbn [map last] in *. exact IH.
+Qed.
+Lemma removelast_map : forall (A B : Type) (f : A -> B) l, removelast (map f l) = map f (removelast l).
+Proof.
+  intros A B f l. induction l as [|x l IH]; [reflexivity|].
+  destruct l as [|y l]; [reflexivity|]. cbn [map removelast] in *. rewrite IH. reflexivity.
+Qed.
+
+Lemma rect_pattern_rect4 : forall a b c d,
+  rect_pattern a b c d = S.rect4 (S.rpt a) (S.rpt b) (S.rpt c) (S.rpt d).
+Proof. intros [ax ay] [bx by_] [cx cy] [dx dy]. reflexivity. Qed.
+
+Lemma import_boundary_rel : forall c ly b ly' e,
+  import_boundary c ly b = IOk (ly', e) ->
+  exists gm, S.boundary_geom b = S.SOk gm /\ shape_rel (e_shape e) gm /\ e_net e = None /\
+             (ly', e_layer e, e_purpose e) = get_or_insert ly (G.b_layer b) (G.b_datatype b).
+Proof.
+  intros c ly b ly' e H. unfold import_boundary in H. unfold S.boundary_geom.
+  rewrite <- map_rpt_import.
+  destruct (map import_point (G.b_xy b)) as [|p0 rest] eqn:Epts.
+  - destruct (fx_emptyxy c); discriminate.
+  - cbn [map]. change (S.rpt p0 :: map S.rpt rest) with (map S.rpt (p0 :: rest)).
+    rewrite (last_map _ _ S.rpt (p0 :: rest) p0), pt_eqb_rpt.
+    destruct (pt_eqb p0 (last (p0 :: rest) p0)) eqn:Eclosed; cbn [negb] in H; [|discriminate].
+    rewrite removelast_map.
+    remember (removelast (p0 :: rest)) as pts' eqn:Epts'.
+    unfold mk_element in H.
+    destruct (get_or_insert ly (G.b_layer b) (G.b_datatype b)) as [[ly1 key] purp] eqn:Egoi.
+    injection H as <- <-. cbn [e_shape e_net e_layer e_purpose].
+    eexists. split; [reflexivity|]. split; [|split; reflexivity].
+    destruct pts' as [|a [|b0 [|c0 [|d [|x r]]]]]; try apply SR_poly.
+    destruct (rect_pattern a b0 c0 d) eqn:Erp; [|apply SR_poly].
+    cbn [map]. apply SR_rect. rewrite <- rect_pattern_rect4. exact Erp.
+Qed.
+
+
+(* ---- p2.v ---- *)
+Lemma import_box_rel : forall ly b ly' e,
+  import_box ly b = IOk (ly', e) ->
+  S.box_geom b <> S.SErr /\
+  (forall gm, S.box_geom b = S.SOk gm -> shape_rel (e_shape e) gm) /\ e_net e = None /\
+  (ly', e_layer e, e_purpose e) = get_or_insert ly (G.x_layer b) (G.x_boxtype b).
+Proof.
+  intros ly b ly' e H. unfold import_box in H. unfold S.box_geom.
+  destruct (G.x_xy b) as [|q0 [|q1 [|q2 [|q3 [|q4 [|x r]]]]]]; try discriminate.
+  unfold mk_element in H.
+  destruct (get_or_insert ly (G.x_layer b) (G.x_boxtype b)) as [[ly1 key] purp] eqn:Egoi.
+  injection H as <- <-. cbn [e_shape e_net e_layer e_purpose map].
+  split; [destruct (S.pt_eqb (S.gpt q0) (S.gpt q4) && S.rect4 (S.gpt q0) (S.gpt q1) (S.gpt q2) (S.gpt q3)); discriminate|].
+  split; [|split; reflexivity].
+  intros gm Hg.
+  destruct (S.pt_eqb (S.gpt q0) (S.gpt q4) && S.rect4 (S.gpt q0) (S.gpt q1) (S.gpt q2) (S.gpt q3)) eqn:E; [|discriminate].
+  injection Hg as <-. apply andb_prop in E. destruct E as [_ E].
+  rewrite <- !rpt_import_point. apply SR_rect. rewrite !rpt_import_point. exact E.
+Qed.
+
+Lemma import_path_rel : forall c ly p ly' e,
+  fx_width c = true ->
+  import_path c ly p = IOk (ly', e) ->
+  exists gm, (G.p_xy p <> [] -> S.path_geom p = S.SOk gm) /\ shape_rel (e_shape e) gm /\ e_net e = None /\
+             (ly', e_layer e, e_purpose e) = get_or_insert ly (G.p_layer p) (G.p_datatype p).
+Proof.
+  intros c ly p ly' e Hw H. unfold import_path in H. unfold S.path_geom.
+  rewrite <- map_rpt_import.
+  set (pts := map import_point (G.p_xy p)) in *.
+  assert (Hmain : match G.p_width p with
+                  | None => IErr EPathWidth
+                  | Some w => IOk (mk_element ly (G.p_layer p) (G.p_datatype p)
+                                     (Path pts (if w <? 0 then (if fx_width c then - w else w + two64) else w)))
+                  end = IOk (ly', e)).
+  { destruct pts; [destruct (fx_emptyxy c); [discriminate|exact H] | exact H]. }
+  destruct (G.p_width p) as [w|]; [|discriminate].
+  rewrite Hw in Hmain. unfold mk_element in Hmain.
+  destruct (get_or_insert ly (G.p_layer p) (G.p_datatype p)) as [[ly1 key] purp] eqn:Egoi.
+  injection Hmain as <- <-. cbn [e_shape e_net e_layer e_purpose].
+  exists (S.GPath (map S.rpt pts) (Z.abs w)). split; [|split; [|split; reflexivity]].
+  - intro Hne. destruct (map S.rpt pts) eqn:E; [|reflexivity].
+    exfalso. apply Hne. subst pts. destruct (G.p_xy p); [reflexivity|discriminate].
+  - replace (if w <? 0 then - w else w) with (Z.abs w); [apply SR_path|].
+    destruct (Z.ltb_spec w 0); lia.
+Qed.
+Lemma import_path_nonempty : forall c ly p r,
+  fx_emptyxy c = true -> import_path c ly p = IOk r -> G.p_xy p <> [].
+Proof.
+  intros c ly p r He H Hn. unfold import_path in H. rewrite Hn, He in H. cbn in H. discriminate.
+Qed.
+Lemma import_boundary_nonempty : forall c ly b r, import_boundary c ly b = IOk r -> G.b_xy b <> [].
+Proof.
+  intros c ly b r H Hn. unfold import_boundary in H. rewrite Hn in H. cbn in H. destruct (fx_emptyxy c); discriminate.
+Qed.
+
+(** * Instances *)
+Definition inst_rel (i : instance) (pl : TS.splacement) : Prop :=
+  exists p, placement_of i = Some p /\ forall v, T.apply_Z (T.from_placement_Z p) v = TS.place_pt pl v.
+
+
+
+Lemma inst_rel_intro : forall nm cell x y r a refl q,
+  match a with
+  | None => S.SOk (r, O)
+  | Some a => match f64_int_value a with
+              | Some d => match TS.quarters_of d with Some q => S.SOk (r, q) | None => S.SSilent end
+              | None => S.SSilent
+              end
+  end = S.SOk (refl, q) ->
+  inst_rel (mkinst nm cell (mkpt x y) r a) (x, y, refl, q).
+Proof.
+  intros nm cell x y r a refl q H. unfold inst_rel, placement_of, angle_cs. cbn [i_angle i_loc i_reflect px py].
+  destruct a as [a|].
+  - destruct (f64_int_value a) as [d|]; [|discriminate].
+    destruct (TS.quarters_of d) as [q'|] eqn:Eq; [|discriminate].
+    injection H as <- <-.
+    assert (Hcs : exists cs, T.exact_cs d = Some cs).
+    { unfold TS.quarters_of in Eq. unfold T.exact_cs. destruct (d mod 90 =? 0); [eexists; reflexivity|discriminate]. }
+    destruct Hcs as [cs Hcs]. rewrite Hcs. cbn [option_map].
+    eexists. split; [reflexivity|]. intro v.
+    unfold T.from_placement_Z, T.from_placement, T.from_instance_opt, T.cs_of. cbn [fst snd].
+    exact (Geom.Transform_proofs.from_instance_Z_spec x y r d cs q' v Hcs Eq).
+  - injection H as <- <-. eexists. split; [reflexivity|]. intro v.
+    exact (Geom.Transform_proofs.from_instance_Z_spec_noangle x y r v).
+Qed.
+
+
+(* ---- p3.v ---- *)
+Lemma bits_one_eq : S.bits_one = bits_one.
+Proof. reflexivity. Qed.
+
+Lemma import_instance_rel : forall c cm r i,
+  fx_mag c = true ->
+  import_instance c cm r = IOk i ->
+  S.sref_placements r <> S.SErr /\
+  cm_get cm (G.sr_name r) = Some (i_cell i) /\
+  forall pls, S.sref_placements r = S.SOk pls -> exists pl, pls = [pl] /\ inst_rel i pl.
+Proof.
+  intros c cm r i Hmag H. unfold import_instance in H. unfold S.sref_placements, S.strans_place.
+  destruct (cm_get cm (G.sr_name r)) as [cell|] eqn:Ecm; [|discriminate].
+  destruct (G.sr_xy r) as [x y] eqn:Exy. unfold import_point in H. cbn [G.px G.py] in *.
+  destruct (G.sr_strans r) as [st|].
+  - destruct (G.st_abs_mag st || G.st_abs_angle st); [discriminate|].
+    rewrite Hmag in H. cbn [andb] in H. rewrite bits_one_eq.
+    destruct (match G.st_mag st with Some m => negb (m =? bits_one) | None => false end); [discriminate|].
+    injection H as <-. cbn [i_cell].
+    split; [|split; [reflexivity|]].
+    + destruct (G.st_angle st) as [a|]; [|discriminate].
+      destruct (f64_int_value a) as [d|]; [|discriminate]. destruct (TS.quarters_of d); discriminate.
+    + intros pls Hp.
+      destruct (match G.st_angle st with
+                | Some a => match f64_int_value a with
+                            | Some d => match TS.quarters_of d with Some q => S.SOk (G.st_reflected st, q) | None => S.SSilent end
+                            | None => S.SSilent end
+                | None => S.SOk (G.st_reflected st, O) end) as [[refl q]| |] eqn:E; try discriminate.
+      cbn [S.smap fst snd] in Hp. injection Hp as <-. eexists. split; [reflexivity|].
+      apply inst_rel_intro. destruct (G.st_angle st); exact E.
+  - injection H as <-. cbn [i_cell]. split; [discriminate|]. split; [reflexivity|].
+    intros pls Hp. cbn [S.smap fst snd] in Hp. injection Hp as <-. eexists. split; [reflexivity|].
+    apply inst_rel_intro. reflexivity.
+Qed.
+
+Lemma quot_div_exact : forall x n, n <> 0 -> x mod n = 0 -> Z.quot x n = x / n.
+Proof.
+  intros x n Hn Hm. rewrite (Z_div_exact_full_2 x n Hn Hm) at 1.
+  rewrite Z.mul_comm. apply Z.quot_mul. exact Hn.
+Qed.
+
+Lemma Forall2_flat_map_map : forall (A B I J : Type) (R : A -> B -> Prop) (f : I -> J -> A) (g : I -> J -> B) xs ys,
+  (forall i j, R (f i j) (g i j)) ->
+  Forall2 R (flat_map (fun i => map (fun j => f i j) ys) xs) (flat_map (fun i => map (fun j => g i j) ys) xs).
+Proof.
+  intros A B I J R f g xs ys H. induction xs as [|i xs IH]; cbn [flat_map]; [constructor|].
+  apply Forall2_app; [|exact IH]. clear IH. induction ys as [|j ys IHy]; cbn [map].
+  - constructor.
+  - constructor; [apply H | exact IHy].
+Qed.
+
+Lemma array_insts_cell : forall cname cell cols rows loc refl angle,
+  Forall (fun i => i_cell i = cell) (array_insts cname cell cols rows loc refl angle).
+Proof.
+  intros. unfold array_insts. apply Forall_forall. intros i Hi.
+  apply in_flat_map in Hi. destruct Hi as [ix [_ Hi]]. apply in_map_iff in Hi. destruct Hi as [iy [<- _]]. reflexivity.
+Qed.
+
+Lemma zrange_eq : forall n, S.zrange n = zrange n.
+Proof. reflexivity. Qed.
+
+Lemma import_array_rel : forall c cm a oi,
+  fx_dims c = true -> fx_deg c = true -> fx_lattice c = true ->
+  import_instance_array c cm a = IOk oi ->
+  S.aref_placements a <> S.SErr /\
+  exists cell insts, oi = Some insts /\ cm_get cm (G.ar_name a) = Some cell /\
+     Forall (fun i => i_cell i = cell) insts /\
+     forall pls, S.aref_placements a = S.SOk pls -> Forall2 inst_rel insts pls.
+Proof.
+  intros c cm a oi Hdims Hdeg Hlat H. unfold import_instance_array in H. unfold S.aref_placements.
+  destruct (cm_get cm (G.ar_name a)) as [cell|] eqn:Ecm; [|discriminate].
+  destruct (G.ar_xy a) as [|q0 [|q1 [|q2 [|x r]]]]; try discriminate.
+  rewrite Hdims, Hlat in H. cbn [andb] in H.
+  destruct ((G.ar_cols a <=? 0) || (G.ar_rows a <=? 0)) eqn:Edims; [discriminate|].
+  apply orb_false_elim in Edims. destruct Edims as [Ec Er].
+  apply Z.leb_gt in Ec. apply Z.leb_gt in Er.
+  replace ((G.ar_cols a =? 0) || (G.ar_rows a =? 0)) with false in H
+    by (symmetry; apply orb_false_intro; apply Z.eqb_neq; lia).
+  cbn [map]. unfold S.strans_place.
+  (* the strans part *)
+  destruct (G.ar_strans a) as [st|].
+  - destruct (G.st_abs_mag st || G.st_abs_angle st); [discriminate|].
+    destruct (G.st_mag st) as [m|]; [discriminate|]. rewrite Hdeg in H.
+    replace (match G.st_angle st with
+             | Some a0 => IOk (G.st_reflected st, Some a0)
+             | None => IOk (G.st_reflected st, None)
+             end) with (@IOk (bool * option Z) (G.st_reflected st, G.st_angle st)) in H
+      by (destruct (G.st_angle st); reflexivity).
+    cbn [ibind] in H.
+    destruct (array_capacity c (G.ar_cols a) (G.ar_rows a)) as [[]| | |]; try discriminate.
+    cbn [ibind] in H. injection H as <-.
+    set (SP := match G.st_angle st with
+               | Some a0 => match f64_int_value a0 with
+                            | Some d => match TS.quarters_of d with Some q => S.SOk (G.st_reflected st, q) | None => S.SSilent end
+                            | None => S.SSilent end
+               | None => S.SOk (G.st_reflected st, O) end).
+    assert (HSP : SP <> S.SErr).
+    { subst SP. destruct (G.st_angle st) as [a0|]; [|discriminate].
+      destruct (f64_int_value a0); [|discriminate]. destruct (TS.quarters_of z); discriminate. }
+    split.
+    + destruct SP; [| exfalso; apply HSP; reflexivity |];
+        destruct (((fst (S.gpt q1) - fst (S.gpt q0)) mod G.ar_cols a =? 0) && ((snd (S.gpt q1) - snd (S.gpt q0)) mod G.ar_cols a =? 0) &&
+                  ((fst (S.gpt q2) - fst (S.gpt q0)) mod G.ar_rows a =? 0) && ((snd (S.gpt q2) - snd (S.gpt q0)) mod G.ar_rows a =? 0));
+        cbn [S.sbind2]; discriminate.
+    + exists cell. eexists. split; [reflexivity|]. split; [reflexivity|]. split; [apply array_insts_cell|].
+      intros pls Hp.
+      destruct SP as [[refl q]| |] eqn:ESP; [| exfalso; apply HSP; reflexivity | ].
+      2:{ destruct (((fst (S.gpt q1) - fst (S.gpt q0)) mod G.ar_cols a =? 0) && ((snd (S.gpt q1) - snd (S.gpt q0)) mod G.ar_cols a =? 0) &&
+                    ((fst (S.gpt q2) - fst (S.gpt q0)) mod G.ar_rows a =? 0) && ((snd (S.gpt q2) - snd (S.gpt q0)) mod G.ar_rows a =? 0));
+            cbn [S.sbind2] in Hp; discriminate. }
+      destruct (((fst (S.gpt q1) - fst (S.gpt q0)) mod G.ar_cols a =? 0) && ((snd (S.gpt q1) - snd (S.gpt q0)) mod G.ar_cols a =? 0) &&
+                ((fst (S.gpt q2) - fst (S.gpt q0)) mod G.ar_rows a =? 0) && ((snd (S.gpt q2) - snd (S.gpt q0)) mod G.ar_rows a =? 0)) eqn:Ediv;
+        cbn [S.sbind2] in Hp; [|discriminate].
+      injection Hp as <-.
+      apply andb_prop in Ediv. destruct Ediv as [Ediv E4]. apply andb_prop in Ediv. destruct Ediv as [Ediv E3].
+      apply andb_prop in Ediv. destruct Ediv as [E1 E2].
+      apply Z.eqb_eq in E1, E2, E3, E4.
+      unfold array_insts, S.zrange, zrange. cbn [fst snd].
+      apply Forall2_flat_map_map. intros ix iy.
+      destruct q0 as [x0 y0], q1 as [x1 y1], q2 as [x2 y2]. unfold S.gpt, import_point in *. cbn [G.px G.py px py fst snd] in *.
+      rewrite (quot_div_exact (x1 - x0) (G.ar_cols a)) by (lia || assumption).
+      rewrite (quot_div_exact (y1 - y0) (G.ar_cols a)) by (lia || assumption).
+      rewrite (quot_div_exact (x2 - x0) (G.ar_rows a)) by (lia || assumption).
+      rewrite (quot_div_exact (y2 - y0) (G.ar_rows a)) by (lia || assumption).
+      apply inst_rel_intro. subst SP. destruct (G.st_angle st); exact ESP.
+  - cbn [ibind] in H.
+    destruct (array_capacity c (G.ar_cols a) (G.ar_rows a)) as [[]| | |]; try discriminate.
+    cbn [ibind] in H. injection H as <-.
+    split.
+    + destruct (((fst (S.gpt q1) - fst (S.gpt q0)) mod G.ar_cols a =? 0) && ((snd (S.gpt q1) - snd (S.gpt q0)) mod G.ar_cols a =? 0) &&
+                ((fst (S.gpt q2) - fst (S.gpt q0)) mod G.ar_rows a =? 0) && ((snd (S.gpt q2) - snd (S.gpt q0)) mod G.ar_rows a =? 0));
+        cbn [S.sbind2]; discriminate.
+    + exists cell. eexists. split; [reflexivity|]. split; [reflexivity|]. split; [apply array_insts_cell|].
+      intros pls Hp.
+      destruct (((fst (S.gpt q1) - fst (S.gpt q0)) mod G.ar_cols a =? 0) && ((snd (S.gpt q1) - snd (S.gpt q0)) mod G.ar_cols a =? 0) &&
+                ((fst (S.gpt q2) - fst (S.gpt q0)) mod G.ar_rows a =? 0) && ((snd (S.gpt q2) - snd (S.gpt q0)) mod G.ar_rows a =? 0)) eqn:Ediv;
+        cbn [S.sbind2] in Hp; [|discriminate].
+      injection Hp as <-.
+      apply andb_prop in Ediv. destruct Ediv as [Ediv E4]. apply andb_prop in Ediv. destruct Ediv as [Ediv E3].
+      apply andb_prop in Ediv. destruct Ediv as [E1 E2].
+      apply Z.eqb_eq in E1, E2, E3, E4.
+      unfold array_insts, S.zrange, zrange. cbn [fst snd].
+      apply Forall2_flat_map_map. intros ix iy.
+      destruct q0 as [x0 y0], q1 as [x1 y1], q2 as [x2 y2]. unfold S.gpt, import_point in *. cbn [G.px G.py px py fst snd] in *.
+      rewrite (quot_div_exact (x1 - x0) (G.ar_cols a)) by (lia || assumption).
+      rewrite (quot_div_exact (y1 - y0) (G.ar_cols a)) by (lia || assumption).
+      rewrite (quot_div_exact (x2 - x0) (G.ar_rows a)) by (lia || assumption).
+      rewrite (quot_div_exact (y2 - y0) (G.ar_rows a)) by (lia || assumption).
+      apply inst_rel_intro. reflexivity.
+Qed.
+
+
+(* ---- p4.v ---- *)
+(** * Layer tables *)
+Lemma purpose_eqb_eq : forall a b, purpose_eqb a b = true <-> a = b.
+Proof.
+  intros a b. split.
+  - destruct a, b; cbn; try discriminate; try reflexivity.
+    + intro H. apply andb_prop in H. destruct H as [H1 H2]. apply String.eqb_eq in H1. apply Z.eqb_eq in H2. subst. reflexivity.
+    + intro H. apply Z.eqb_eq in H. subst. reflexivity.
+  - intros <-. destruct a; cbn; try reflexivity.
+    + rewrite String.eqb_refl, Z.eqb_refl. reflexivity.
+    + apply Z.eqb_refl.
+Qed.
+
+Lemma find_last_app_last : forall (A : Type) (f : A -> bool) l x,
+  find_last f (l ++ [x]) = if f x then Some x else find_last f l.
+Proof.
+  intros A f l x. induction l as [|y l IH]; cbn [app find_last].
+  - destruct (f x); reflexivity.
+  - rewrite IH. destruct (f x); [reflexivity|]. reflexivity.
+Qed.
+Lemma find_last_some : forall (A : Type) (f : A -> bool) l y, find_last f l = Some y -> In y l /\ f y = true.
+Proof.
+  intros A f l y. induction l as [|x l IH]; cbn [find_last]; [discriminate|].
+  destruct (find_last f l) as [z|].
+  - intro H. injection H as ->. destruct (IH eq_refl) as [H1 H2]. split; [right; exact H1 | exact H2].
+  - destruct (f x) eqn:E; [|discriminate]. intro H. injection H as ->. split; [left; reflexivity | exact E].
+Qed.
+
+Definition pairs_other (l : layer) : Prop := Forall (fun np => snd np = Other (fst np)) (l_pairs l).
+Definition ly_inv (ly : layers) : Prop := Forall pairs_other ly.
+
+Lemma ly_keynum_some : forall ly n k, ly_keynum ly n = Some k -> exists l, nth_error ly k = Some l /\ l_num l = n.
+Proof.
+  induction ly as [|l ly IH]; intros n k H; cbn [ly_keynum] in H; [discriminate|].
+  destruct (ly_keynum ly n) as [k'|] eqn:E.
+  - injection H as <-. destruct (IH n k' E) as [l' [H1 H2]]. exists l'. split; assumption.
+  - destruct (l_num l =? n) eqn:En; [|discriminate]. injection H as <-. exists l. split; [reflexivity | apply Z.eqb_eq; exact En].
+Qed.
+
+Lemma nth_error_list_set_same : forall (A : Type) (l : list A) k x y, nth_error l k = Some y -> nth_error (list_set l k x) k = Some x.
+Proof.
+  intros A l. induction l as [|z l IH]; intros k x y H; destruct k; cbn in *; try discriminate; [reflexivity|].
+  eapply IH; exact H.
+Qed.
+Lemma nth_error_list_set_other : forall (A : Type) (l : list A) k j x, j <> k -> nth_error (list_set l k x) j = nth_error l j.
+Proof.
+  intros A l. induction l as [|z l IH]; intros k j x H; destruct k, j; cbn; try reflexivity; try congruence.
+  apply IH. congruence.
+Qed.
+Lemma list_set_length : forall (A : Type) (l : list A) k x, List.length (list_set l k x) = List.length l.
+Proof. intros A l. induction l as [|z l IH]; intros k x; destruct k; cbn; try reflexivity. rewrite IH. reflexivity. Qed.
+Lemma Forall_list_set : forall (A : Type) (P : A -> Prop) (l : list A) k x, Forall P l -> P x -> Forall P (list_set l k x).
+Proof.
+  intros A P l. induction l as [|z l IH]; intros k x Hl Hx; destruct k; cbn; try constructor; inversion Hl; subst; auto.
+Qed.
+
+Lemma layer_pnum_other : forall l pn,
+  pairs_other l -> (exists np, In np (l_pairs l) /\ snd np = Other pn) -> layer_pnum l (Other pn) = Some pn.
+Proof.
+  intros l pn Hinv [np [Hin Hs]]. unfold layer_pnum.
+  destruct (find_last (fun np0 => purpose_eqb (snd np0) (Other pn)) (l_pairs l)) as [y|] eqn:E.
+  - apply find_last_some in E. destruct E as [Hy Hf]. apply purpose_eqb_eq in Hf.
+    unfold pairs_other in Hinv. rewrite Forall_forall in Hinv. specialize (Hinv y Hy). rewrite Hf in Hinv.
+    injection Hinv as Hpn. cbn [option_map]. rewrite <- Hpn. reflexivity.
+  - exfalso. clear Hinv. induction (l_pairs l) as [|x r IH]; [exact Hin|].
+    cbn [find_last] in E. destruct (find_last (fun np0 => purpose_eqb (snd np0) (Other pn)) r); [discriminate|].
+    destruct Hin as [-> | Hin].
+    + rewrite Hs in E. cbn in E. rewrite Z.eqb_refl in E. discriminate.
+    + destruct (purpose_eqb (snd x) (Other pn)); [discriminate|]. apply IH; [exact Hin | reflexivity].
+Qed.
+
+Lemma get_or_insert_spec : forall ly n pn ly' key purp,
+  ly_inv ly -> get_or_insert ly n pn = (ly', key, purp) ->
+  ly_inv ly' /\ resolve_lp ly' key purp = Some (n, pn) /\
+  (forall k p x, resolve_lp ly k p = Some x -> resolve_lp ly' k p = Some x) /\
+  (exists l, ly_get ly' key = Some l /\ l_num l = n).
+Proof.
+  intros ly n pn ly' key purp Hinv H. unfold get_or_insert in H.
+  destruct (match ly_keynum ly n with Some k => (ly, k) | None => ly_add ly (layer_from_num n) end) as [ly1 key1] eqn:E1.
+  assert (A : ly_inv ly1 /\ (exists l, nth_error ly1 key1 = Some l /\ l_num l = n) /\
+              (forall k p x, resolve_lp ly k p = Some x -> resolve_lp ly1 k p = Some x)).
+  { destruct (ly_keynum ly n) as [k|] eqn:Ek.
+    - injection E1 as <- <-. split; [exact Hinv|]. split; [apply ly_keynum_some; exact Ek | auto].
+    - unfold ly_add in E1. injection E1 as <- <-. split.
+      + apply Forall_app. split; [exact Hinv|]. constructor; [|constructor]. unfold pairs_other, layer_from_num; cbn. constructor.
+      + split.
+        * exists (layer_from_num n). split; [rewrite nth_error_app2 by lia; rewrite Nat.sub_diag; reflexivity | reflexivity].
+        * intros k p x Hr. unfold resolve_lp, ly_get in *. destruct (nth_error ly k) eqn:En; [|discriminate].
+          rewrite nth_error_app1; [rewrite En; exact Hr | apply nth_error_Some; congruence]. }
+  destruct A as [Hinv1 [[l [Hl Hn]] Hmono1]].
+  unfold ly_get in H. rewrite Hl in H.
+  assert (Hl0 : pairs_other l).
+  { unfold ly_inv in Hinv1. rewrite Forall_forall in Hinv1. apply Hinv1. eapply nth_error_In; exact Hl. }
+  destruct (layer_purpose l pn) as [p|] eqn:Ep.
+  - injection H as <- <- <-. split; [exact Hinv1|]. split.
+    + unfold resolve_lp, ly_get. rewrite Hl.
+      unfold layer_purpose in Ep. destruct (find_last (fun np => fst np =? pn) (l_pairs l)) as [np|] eqn:Ef; [|discriminate].
+      cbn in Ep. injection Ep as <-. apply find_last_some in Ef. destruct Ef as [Hin Hf]. apply Z.eqb_eq in Hf.
+      assert (Hs : snd np = Other pn).
+      { unfold pairs_other in Hl0. rewrite Forall_forall in Hl0. rewrite (Hl0 np Hin), Hf. reflexivity. }
+      rewrite Hs. rewrite (layer_pnum_other l pn Hl0) by (exists np; auto). rewrite Hn. reflexivity.
+    + split; [exact Hmono1|]. exists l. split; [exact Hl | exact Hn].
+  - injection H as <- <- <-.
+    set (l' := mklayer (l_num l) (l_name l) (l_pairs l ++ [(pn, Other pn)])).
+    assert (Hl' : pairs_other l').
+    { unfold pairs_other, l'; cbn [l_pairs]. apply Forall_app; split; [exact Hl0 | constructor; [reflexivity|constructor]]. }
+    split; [apply Forall_list_set; assumption|]. split.
+    + unfold resolve_lp, ly_get. rewrite (nth_error_list_set_same _ _ _ _ _ Hl).
+      rewrite (layer_pnum_other l' pn Hl') by (exists (pn, Other pn); split; [apply in_or_app; right; left; reflexivity | reflexivity]).
+      cbn [l' l_num]. rewrite Hn. reflexivity.
+    + split.
+      * intros k p x Hr. apply Hmono1 in Hr. unfold resolve_lp, ly_get in *.
+        destruct (Nat.eq_dec k key1) as [->|Hne].
+        -- rewrite Hl in Hr. rewrite (nth_error_list_set_same _ _ _ _ _ Hl).
+           unfold layer_pnum in *. cbn [l_pairs l' l_num]. rewrite find_last_app_last. cbn [snd].
+           destruct (purpose_eqb (Other pn) p) eqn:Epp; [|exact Hr].
+           apply purpose_eqb_eq in Epp. subst p. cbn [option_map fst].
+           destruct (find_last (fun np => purpose_eqb (snd np) (Other pn)) (l_pairs l)) as [np0|] eqn:Ef; [|discriminate].
+           apply find_last_some in Ef. destruct Ef as [Hin Hf]. apply purpose_eqb_eq in Hf.
+           unfold pairs_other in Hl0. rewrite Forall_forall in Hl0. specialize (Hl0 np0 Hin). rewrite Hf in Hl0.
+           injection Hl0 as Hfst. cbn [option_map] in Hr. rewrite <- Hfst in Hr. exact Hr.
+        -- rewrite nth_error_list_set_other by exact Hne. exact Hr.
+      * exists l'. split; [apply nth_error_list_set_same with l; exact Hl | exact Hn].
+Qed.
+
+
+(* ---- p5.v ---- *)
+Definition cfg_ok (c : cfg) : Prop :=
+  fx_dims c = true /\ fx_deg c = true /\ fx_lattice c = true /\ fx_emptyxy c = true /\ fx_mag c = true /\ fx_width c = true.
+
+Definition ly_mono (ly ly' : layers) : Prop :=
+  forall k p x, resolve_lp ly k p = Some x -> resolve_lp ly' k p = Some x.
+Lemma ly_mono_refl : forall ly, ly_mono ly ly.
+Proof. intros ly k p x H. exact H. Qed.
+Lemma ly_mono_trans : forall a b c, ly_mono a b -> ly_mono b c -> ly_mono a c.
+Proof. intros a b c H1 H2 k p x H. apply H2, H1, H. Qed.
+
+Definition elem_ok (ly : layers) (e : element) (layer dt : Z) (sg : S.sres S.geom) : Prop :=
+  resolve_lp ly (e_layer e) (e_purpose e) = Some (layer, dt) /\ sg <> S.SErr /\
+  forall gm, sg = S.SOk gm -> shape_rel (e_shape e) gm.
+Definition ref_ok (cm : cell_map) (nm : G.bytes) (insts : list instance) (sp : S.sres (list TS.splacement)) : Prop :=
+  sp <> S.SErr /\ exists cell, cm_get cm nm = Some cell /\ Forall (fun i => i_cell i = cell) insts /\
+  forall pls, sp = S.SOk pls -> Forall2 inst_rel insts pls.
+
+Inductive items_rel (ly : layers) (cm : cell_map) : list G.element -> list element -> list instance -> Prop :=
+| IR_nil : items_rel ly cm [] [] []
+| IR_boundary : forall b es e elems insts,
+    elem_ok ly e (G.b_layer b) (G.b_datatype b) (S.boundary_geom b) -> items_rel ly cm es elems insts ->
+    items_rel ly cm (G.EBoundary b :: es) (e :: elems) insts
+| IR_box : forall b es e elems insts,
+    elem_ok ly e (G.x_layer b) (G.x_boxtype b) (S.box_geom b) -> items_rel ly cm es elems insts ->
+    items_rel ly cm (G.EBox b :: es) (e :: elems) insts
+| IR_path : forall p es e elems insts,
+    elem_ok ly e (G.p_layer p) (G.p_datatype p) (S.path_geom p) -> items_rel ly cm es elems insts ->
+    items_rel ly cm (G.EPath p :: es) (e :: elems) insts
+| IR_sref : forall r es i elems insts,
+    ref_ok cm (G.sr_name r) [i] (S.sref_placements r) -> items_rel ly cm es elems insts ->
+    items_rel ly cm (G.ESref r :: es) elems (i :: insts)
+| IR_aref : forall a es new elems insts,
+    ref_ok cm (G.ar_name a) new (S.aref_placements a) -> items_rel ly cm es elems insts ->
+    items_rel ly cm (G.EAref a :: es) elems (new ++ insts)
+| IR_text : forall t es elems insts, items_rel ly cm es elems insts -> items_rel ly cm (G.EText t :: es) elems insts
+| IR_node : forall n es elems insts, items_rel ly cm es elems insts -> items_rel ly cm (G.ENode n :: es) elems insts.
+
+Lemma elem_ok_mono : forall ly ly' e l d sg, ly_mono ly ly' -> elem_ok ly e l d sg -> elem_ok ly' e l d sg.
+Proof. intros ly ly' e l d sg Hm [H1 H2]. split; [apply Hm; exact H1 | exact H2]. Qed.
+Lemma items_rel_mono : forall ly ly' cm es elems insts,
+  ly_mono ly ly' -> items_rel ly cm es elems insts -> items_rel ly' cm es elems insts.
+Proof.
+  intros ly ly' cm es elems insts Hm H. induction H; try (constructor; eauto using elem_ok_mono; fail).
+Qed.
+
+Definition same_geo (e e' : element) : Prop :=
+  e_layer e = e_layer e' /\ e_purpose e = e_purpose e' /\ e_shape e = e_shape e'.
+Lemma same_geo_refl : forall e, same_geo e e.
+Proof. intro e. repeat split. Qed.
+Lemma Forall2_same_geo_refl : forall l, Forall2 same_geo l l.
+Proof. induction l; constructor; auto using same_geo_refl. Qed.
+Lemma same_geo_trans : forall a b c, same_geo a b -> same_geo b c -> same_geo a c.
+Proof. intros a b c [H1 [H2 H3]] [H4 [H5 H6]]. repeat split; congruence. Qed.
+Lemma Forall2_same_geo_trans : forall l1 l2 l3, Forall2 same_geo l1 l2 -> Forall2 same_geo l2 l3 -> Forall2 same_geo l1 l3.
+Proof.
+  intros l1 l2 l3 H. revert l3. induction H; intros l3 H3; inversion H3; subst; constructor; eauto using same_geo_trans.
+Qed.
+Lemma Forall2_list_set : forall l k e e', nth_error l k = Some e -> same_geo e e' -> Forall2 same_geo l (list_set l k e').
+Proof.
+  induction l as [|x l IH]; intros k e e' Hn Hg; destruct k; cbn in *; try discriminate.
+  - injection Hn as ->. constructor; [exact Hg | apply Forall2_same_geo_refl].
+  - constructor; [apply same_geo_refl | eapply IH; eauto].
+Qed.
+
+Lemma elem_ok_geo : forall ly e e' l d sg, same_geo e e' -> elem_ok ly e l d sg -> elem_ok ly e' l d sg.
+Proof. intros ly e e' l d sg [H1 [H2 H3]] [H4 H5]. unfold elem_ok. rewrite <- H1, <- H2, <- H3. split; assumption. Qed.
+Lemma items_rel_geo : forall ly cm es elems insts elems',
+  items_rel ly cm es elems insts -> Forall2 same_geo elems elems' -> items_rel ly cm es elems' insts.
+Proof.
+  intros ly cm es elems insts elems' H. revert elems'.
+  induction H; intros elems' HF; try (inversion HF; subst); try (constructor; eauto using elem_ok_geo; fail).
+Qed.
+
+(** * pass 1 *)
+Lemma add_element_spec : forall s ly e s',
+  add_element s (ly, e) = IOk s' ->
+  p_layers s' = ly /\ p_elems s' = p_elems s ++ [e] /\ p_insts s' = p_insts s /\ p_texts s' = p_texts s.
+Proof.
+  intros s ly e s' H. unfold add_element in H. destruct (ly_get ly (e_layer e)); [|discriminate].
+  injection H as <-. cbn. repeat split.
+Qed.
+
+Lemma pass1_step_rel : forall c cm, cfg_ok c -> forall e s0 s1,
+  ly_inv (p_layers s0) -> pass1_step c cm s0 e = IOk s1 ->
+  ly_inv (p_layers s1) /\ ly_mono (p_layers s0) (p_layers s1) /\
+  exists elems insts, p_elems s1 = p_elems s0 ++ elems /\ p_insts s1 = p_insts s0 ++ insts /\
+                      p_texts s1 = p_texts s0 ++ (match e with G.EText t => [t] | _ => [] end) /\
+                      items_rel (p_layers s1) cm [e] elems insts.
+Proof.
+  intros c cm (Hdims & Hdeg & Hlat & Hempty & Hmag & Hwidth) e s0 s1 Hinv H.
+  destruct e as [b|p|r|a|t|n|b]; cbn [pass1_step] in H.
+  - (* boundary *)
+    destruct (import_boundary c (p_layers s0) b) as [[ly e]| | |] eqn:Eb; try discriminate. cbn [ibind] in H.
+    destruct (import_boundary_rel _ _ _ _ _ Eb) as [gm [Hg [Hs [_ Hgoi]]]].
+    symmetry in Hgoi. destruct (get_or_insert_spec _ _ _ _ _ _ Hinv Hgoi) as [Hinv' [Hres [Hmono _]]].
+    destruct (add_element_spec _ _ _ _ H) as [-> [He [Hi Ht]]].
+    split; [exact Hinv'|]. split; [exact Hmono|]. exists [e], []. rewrite app_nil_r.
+    split; [exact He|]. split; [exact Hi|]. split; [rewrite app_nil_r; exact Ht|].
+    constructor; [|constructor]. split; [exact Hres|]. rewrite Hg. split; [discriminate|].
+    intros gm' Hgm. injection Hgm as <-. exact Hs.
+  - (* path *)
+    destruct (import_path c (p_layers s0) p) as [[ly e]| | |] eqn:Eb; try discriminate. cbn [ibind] in H.
+    destruct (import_path_rel _ _ _ _ _ Hwidth Eb) as [gm [Hg [Hs [_ Hgoi]]]].
+    specialize (Hg (import_path_nonempty _ _ _ _ Hempty Eb)).
+    symmetry in Hgoi. destruct (get_or_insert_spec _ _ _ _ _ _ Hinv Hgoi) as [Hinv' [Hres [Hmono _]]].
+    destruct (add_element_spec _ _ _ _ H) as [-> [He [Hi Ht]]].
+    split; [exact Hinv'|]. split; [exact Hmono|]. exists [e], []. rewrite app_nil_r.
+    split; [exact He|]. split; [exact Hi|]. split; [rewrite app_nil_r; exact Ht|].
+    constructor; [|constructor]. split; [exact Hres|]. rewrite Hg. split; [discriminate|].
+    intros gm' Hgm. injection Hgm as <-. exact Hs.
+  - (* sref *)
+    destruct (import_instance c cm r) as [i| | |] eqn:Ei; try discriminate. cbn [ibind] in H. injection H as <-. cbn.
+    split; [exact Hinv|]. split; [apply ly_mono_refl|]. exists [], [i]. rewrite !app_nil_r.
+    split; [reflexivity|]. split; [reflexivity|]. split; [reflexivity|].
+    destruct (import_instance_rel _ _ _ _ Hmag Ei) as [Hne [Hcm Hpl]].
+    constructor; [|constructor]. split; [exact Hne|]. exists (i_cell i). split; [exact Hcm|].
+    split; [constructor; [reflexivity|constructor]|].
+    intros pls Hp. destruct (Hpl pls Hp) as [pl [-> Hr]]. constructor; [exact Hr|constructor].
+  - (* aref *)
+    destruct (import_instance_array c cm a) as [oi| | |] eqn:Ei; try discriminate. cbn [ibind] in H. injection H as <-. cbn.
+    destruct (import_array_rel _ _ _ _ Hdims Hdeg Hlat Ei) as [Hne [cell [insts [-> [Hcm [Hcells Hpl]]]]]].
+    split; [exact Hinv|]. split; [apply ly_mono_refl|]. exists [], insts. rewrite !app_nil_r.
+    split; [reflexivity|]. split; [reflexivity|]. split; [reflexivity|].
+    rewrite <- (app_nil_r insts). constructor; [|constructor].
+    split; [exact Hne|]. exists cell. split; [exact Hcm|]. split; [exact Hcells | exact Hpl].
+  - (* text *)
+    injection H as <-. cbn. split; [exact Hinv|]. split; [apply ly_mono_refl|]. exists [], []. rewrite !app_nil_r.
+    repeat split; constructor; constructor.
+  - (* node *)
+    injection H as <-. split; [exact Hinv|]. split; [apply ly_mono_refl|]. exists [], []. rewrite !app_nil_r.
+    repeat split; constructor; constructor.
+  - (* box *)
+    destruct (import_box (p_layers s0) b) as [[ly e]| | |] eqn:Eb; try discriminate. cbn [ibind] in H.
+    destruct (import_box_rel _ _ _ _ Eb) as [Hne [Hs [_ Hgoi]]].
+    symmetry in Hgoi. destruct (get_or_insert_spec _ _ _ _ _ _ Hinv Hgoi) as [Hinv' [Hres [Hmono _]]].
+    destruct (add_element_spec _ _ _ _ H) as [-> [He [Hi Ht]]].
+    split; [exact Hinv'|]. split; [exact Hmono|]. exists [e], []. rewrite app_nil_r.
+    split; [exact He|]. split; [exact Hi|]. split; [rewrite app_nil_r; exact Ht|].
+    constructor; [|constructor]. split; [exact Hres|]. split; [exact Hne | exact Hs].
+Qed.
+
+Lemma items_rel_app : forall ly cm es1 el1 in1 es2 el2 in2,
+  items_rel ly cm es1 el1 in1 -> items_rel ly cm es2 el2 in2 -> items_rel ly cm (es1 ++ es2) (el1 ++ el2) (in1 ++ in2).
+Proof.
+  intros ly cm es1 el1 in1 es2 el2 in2 H1 H2. induction H1; cbn [app]; try (constructor; assumption).
+  - exact H2.
+  - rewrite <- app_assoc. constructor; assumption.
+Qed.
+
+Definition texts_of (es : list G.element) : list G.textelem :=
+  flat_map (fun e => match e with G.EText t => [t] | _ => [] end) es.
+
+Lemma pass1_all_rel : forall c cm, cfg_ok c -> forall es s0 s1,
+  ly_inv (p_layers s0) -> pass1_all c cm s0 es = IOk s1 ->
+  ly_inv (p_layers s1) /\ ly_mono (p_layers s0) (p_layers s1) /\
+  exists elems insts, p_elems s1 = p_elems s0 ++ elems /\ p_insts s1 = p_insts s0 ++ insts /\
+                      p_texts s1 = p_texts s0 ++ texts_of es /\
+                      items_rel (p_layers s1) cm es elems insts.
+Proof.
+  intros c cm Hc. induction es as [|e es IH]; intros s0 s1 Hinv H; cbn [pass1_all] in H.
+  - injection H as <-. split; [exact Hinv|]. split; [apply ly_mono_refl|]. exists [], []. rewrite !app_nil_r.
+    repeat split. constructor.
+  - destruct (pass1_step c cm s0 e) as [s'| | |] eqn:Es; try discriminate. cbn [ibind] in H.
+    destruct (pass1_step_rel c cm Hc e s0 s' Hinv Es) as [Hinv' [Hm1 [el1 [in1 [He1 [Hi1 [Ht1 Hr1]]]]]]].
+    destruct (IH s' s1 Hinv' H) as [Hinv1 [Hm2 [el2 [in2 [He2 [Hi2 [Ht2 Hr2]]]]]]].
+    split; [exact Hinv1|]. split; [eapply ly_mono_trans; eassumption|].
+    exists (el1 ++ el2), (in1 ++ in2).
+    split; [rewrite He2, He1, app_assoc; reflexivity|]. split; [rewrite Hi2, Hi1, app_assoc; reflexivity|].
+    split; [rewrite Ht2, Ht1, <- app_assoc; reflexivity|].
+    change (e :: es) with ([e] ++ es). apply items_rel_app; [eapply items_rel_mono; eassumption | exact Hr2].
+Qed.
+
+(** * pass 2 keeps layers, purposes and shapes *)
+Lemma label_bucket_geo : forall c name loc keys elems hit elems' hit',
+  label_bucket c name loc elems hit keys = IOk (elems', hit') -> Forall2 same_geo elems elems'.
+Proof.
+  intros c name loc. induction keys as [|k keys IH]; intros elems hit elems' hit' H; cbn [label_bucket] in H.
+  - injection H as <- _. apply Forall2_same_geo_refl.
+  - destruct (nth_error elems k) as [e|] eqn:En; [|discriminate].
+    destruct (shape_contains c (e_shape e) loc) as [b| | |]; try discriminate. cbn [ibind] in H.
+    destruct b.
+    + apply IH in H. eapply Forall2_same_geo_trans; [|exact H].
+      eapply Forall2_list_set; [exact En|]. destruct (e_net e); [apply same_geo_refl | repeat split].
+    + eapply IH; exact H.
+Qed.
+Lemma pass2_geo : forall c buckets texts elems annots elems' annots',
+  pass2 c buckets elems annots texts = IOk (elems', annots') -> Forall2 same_geo elems elems'.
+Proof.
+  intros c buckets. induction texts as [|t texts IH]; intros elems annots elems' annots' H; cbn [pass2] in H.
+  - injection H as <- _. apply Forall2_same_geo_refl.
+  - destruct (bucket_get buckets (G.t_layer t)) as [keys|].
+    + destruct (label_bucket c (lower (str_of_bytes (G.t_string t))) (import_point (G.t_xy t)) elems false keys) as [[el h]| | |] eqn:El; try discriminate.
+      cbn [ibind] in H. apply label_bucket_geo in El. eapply Forall2_same_geo_trans; [exact El|].
+      cbn [fst snd] in H. destruct h; eapply IH; exact H.
+    + eapply IH; exact H.
+Qed.
+
+Lemma import_layout_rel : forall c cm ly s ly' l,
+  cfg_ok c -> ly_inv ly -> import_layout c cm ly s = IOk (ly', l) ->
+  ly_inv ly' /\ ly_mono ly ly' /\ lay_name l = str_of_bytes (G.s_name s) /\
+  items_rel ly' cm (G.s_elems s) (lay_elems l) (lay_insts l).
+Proof.
+  intros c cm ly s ly' l Hc Hinv H. unfold import_layout in H.
+  destruct (pass1_all c cm (mkp1 ly [] [] [] []) (G.s_elems s)) as [p| | |] eqn:E1; try discriminate. cbn [ibind] in H.
+  destruct (pass2 c (p_buckets p) (p_elems p) [] (p_texts p)) as [[el an]| | |] eqn:E2; try discriminate. cbn [ibind] in H.
+  injection H as <- <-. cbn [fst snd lay_name lay_elems lay_insts].
+  destruct (pass1_all_rel c cm Hc _ (mkp1 ly [] [] [] []) _ Hinv E1) as [Hinv' [Hm [elems [insts [He [Hi [_ Hr]]]]]]].
+  cbn [p_layers p_elems p_insts app] in *.
+  split; [exact Hinv'|]. split; [exact Hm|]. split; [reflexivity|].
+  rewrite Hi. eapply items_rel_geo; [exact Hr|]. rewrite <- He. eapply pass2_geo; exact E2.
+Qed.
+
+
+(* ---- p6.v ---- *)
+(** * Flattened lists: raw elements against specification shapes *)
+Definition elem_rel (ly : layers) (e : element) (f : S.fshape) : Prop :=
+  resolve_lp ly (e_layer e) (e_purpose e) = Some (S.fs_layer f, S.fs_dtype f) /\ shape_rel (e_shape e) (S.fs_geom f).
+Definition flat_rel (ly : layers) (es : list element) (fs : list S.fshape) : Prop :=
+  exists es' fs', Permutation es es' /\ Permutation fs fs' /\ Forall2 (elem_rel ly) es' fs'.
+
+Lemma flat_rel_nil : forall ly, flat_rel ly [] [].
+Proof. intro ly. exists [], []. repeat split; constructor. Qed.
+Lemma flat_rel_Forall2 : forall ly es fs, Forall2 (elem_rel ly) es fs -> flat_rel ly es fs.
+Proof. intros ly es fs H. exists es, fs. repeat split; auto. Qed.
+Lemma flat_rel_app : forall ly a b c d, flat_rel ly a b -> flat_rel ly c d -> flat_rel ly (a ++ c) (b ++ d).
+Proof.
+  intros ly a b c d [a' [b' [Ha [Hb Hab]]]] [c' [d' [Hc [Hd Hcd]]]].
+  exists (a' ++ c'), (b' ++ d'). split; [apply Permutation_app; assumption|].
+  split; [apply Permutation_app; assumption | apply Forall2_app; assumption].
+Qed.
+Lemma flat_rel_perm : forall ly a a' b b', Permutation a a' -> Permutation b b' -> flat_rel ly a b -> flat_rel ly a' b'.
+Proof.
+  intros ly a a' b b' Ha Hb [x [y [Hx [Hy H]]]]. exists x, y.
+  split; [eapply Permutation_trans; [apply Permutation_sym; exact Ha | exact Hx]|].
+  split; [eapply Permutation_trans; [apply Permutation_sym; exact Hb | exact Hy] | exact H].
+Qed.
+Lemma flat_rel_cons : forall ly e f es fs, elem_rel ly e f -> flat_rel ly es fs -> flat_rel ly (e :: es) (f :: fs).
+Proof.
+  intros ly e f es fs He H. change (e :: es) with ([e] ++ es). change (f :: fs) with ([f] ++ fs).
+  apply flat_rel_app; [|exact H]. apply flat_rel_Forall2. constructor; [exact He | constructor].
+Qed.
+
+(** ** a right-angle placement keeps the rectangle pattern *)
+Lemma rect4_iff : forall a b c d,
+  S.rect4 a b c d = true <->
+  (fst a = fst b /\ snd b = snd c /\ fst c = fst d /\ snd d = snd a) \/
+  (snd a = snd b /\ fst b = fst c /\ snd c = snd d /\ fst d = fst a).
+Proof.
+  intros a b c d. unfold S.rect4. rewrite orb_true_iff, !andb_true_iff, !Z.eqb_eq. tauto.
+Qed.
+Lemma rect4_map : forall (f : TS.pt -> TS.pt),
+  ((forall p, f p = (fst p, - snd p)) \/ (forall p, f p = (- snd p, fst p)) \/ (exists lx ly, forall p, f p = (fst p + lx, snd p + ly))) ->
+  forall a b c d, S.rect4 a b c d = true -> S.rect4 (f a) (f b) (f c) (f d) = true.
+Proof.
+  intros f Hf a b c d H. apply rect4_iff in H. apply rect4_iff.
+  destruct Hf as [Hf | [Hf | [lx [ly Hf]]]]; rewrite !Hf; cbn [fst snd]; lia.
+Qed.
+Lemma rect4_rot : forall q a b c d,
+  S.rect4 a b c d = true -> S.rect4 (TS.rot_quarters q a) (TS.rot_quarters q b) (TS.rot_quarters q c) (TS.rot_quarters q d) = true.
+Proof.
+  induction q as [|q IH]; intros a b c d H; cbn [TS.rot_quarters]; [exact H|].
+  apply (rect4_map TS.rot90); [right; left; intros [x y]; reflexivity|]. apply IH. exact H.
+Qed.
+Lemma rect4_place : forall pl a b c d,
+  S.rect4 a b c d = true -> S.rect4 (TS.place_pt pl a) (TS.place_pt pl b) (TS.place_pt pl c) (TS.place_pt pl d) = true.
+Proof.
+  intros [[[lx ly] r] q] a b c d H. unfold TS.place_pt.
+  apply (rect4_map (TS.translate_by lx ly)); [right; right; exists lx, ly; intros [x y]; reflexivity|].
+  apply rect4_rot. destruct r; [|exact H].
+  apply (rect4_map TS.reflect_x); [left; intros [x y]; reflexivity | exact H].
+Qed.
+
+Lemma rpt_ptz : forall v, S.rpt (ptz v) = v.
+Proof. intros [x y]. reflexivity. Qed.
+Lemma zpt_rpt : forall p, zpt p = S.rpt p.
+Proof. intros [x y]. reflexivity. Qed.
+
+Lemma shape_rel_place : forall (F : Z * Z -> Z * Z) pl sh gm,
+  (forall v, F v = TS.place_pt pl v) -> shape_rel sh gm -> shape_rel (rshape_map F sh) (S.place_geom pl gm).
+Proof.
+  intros F pl sh gm HF H. destruct H as [pts | a b c d H | pts w]; cbn [rshape_map S.place_geom].
+  - replace (map (TS.place_pt pl) (map S.rpt pts)) with (map S.rpt (map (fun p => ptz (F (zpt p))) pts)); [apply SR_poly|].
+    rewrite !map_map. apply map_ext. intro p. rewrite rpt_ptz, HF, zpt_rpt. reflexivity.
+  - cbn [map]. rewrite <- (rpt_ptz (TS.place_pt pl (S.rpt a))), <- (rpt_ptz (TS.place_pt pl (S.rpt c))).
+    rewrite !HF, !zpt_rpt. apply SR_rect. rewrite !rpt_ptz. apply rect4_place. exact H.
+  - replace (map (TS.place_pt pl) (map S.rpt pts)) with (map S.rpt (map (fun p => ptz (F (zpt p))) pts)); [apply SR_path|].
+    rewrite !map_map. apply map_ext. intro p. rewrite rpt_ptz, HF, zpt_rpt. reflexivity.
+Qed.
+Lemma elem_rel_place : forall ly (F : Z * Z -> Z * Z) pl e f,
+  (forall v, F v = TS.place_pt pl v) -> elem_rel ly e f -> elem_rel ly (relem_map F e) (S.place_fshape pl f).
+Proof.
+  intros ly F pl e f HF [H1 H2]. split; [exact H1|]. cbn [relem_map e_shape S.place_fshape S.fs_geom].
+  apply shape_rel_place; assumption.
+Qed.
+Lemma flat_rel_place : forall ly (F : Z * Z -> Z * Z) pl es fs,
+  (forall v, F v = TS.place_pt pl v) -> flat_rel ly es fs ->
+  flat_rel ly (map (relem_map F) es) (map (S.place_fshape pl) fs).
+Proof.
+  intros ly F pl es fs HF [es' [fs' [He [Hf H]]]].
+  exists (map (relem_map F) es'), (map (S.place_fshape pl) fs').
+  split; [apply Permutation_map; exact He|]. split; [apply Permutation_map; exact Hf|].
+  clear He Hf. induction H; cbn [map]; [constructor|].
+  constructor; [apply elem_rel_place; assumption | assumption].
+Qed.
+
+(** ** [flat_rel] gives the property's [flat_equiv] *)
+Lemma elem_rel_norm : forall ly e f, elem_rel ly e f -> S.norm_raw_elem ly e = Some (S.norm_fshape f).
+Proof.
+  intros ly e f [H1 H2]. unfold S.norm_raw_elem, S.norm_fshape.
+  change (S.R.resolve_lp ly (S.R.e_layer e) (S.R.e_purpose e)) with (resolve_lp ly (e_layer e) (e_purpose e)).
+  rewrite H1. rewrite (shape_rel_norm _ _ H2). reflexivity.
+Qed.
+Lemma omap_all_Forall2 : forall ly es fs,
+  Forall2 (elem_rel ly) es fs -> S.omap_all (S.norm_raw_elem ly) es = Some (map S.norm_fshape fs).
+Proof.
+  intros ly es fs H. induction H; cbn [S.omap_all map]; [reflexivity|].
+  rewrite (elem_rel_norm _ _ _ H), IHForall2. reflexivity.
+Qed.
+Lemma omap_all_perm : forall (A B : Type) (f : A -> option B) l l',
+  Permutation l l' -> forall ns', S.omap_all f l' = Some ns' -> exists ns, S.omap_all f l = Some ns /\ Permutation ns ns'.
+Proof.
+  intros A B f l l' H. induction H; intros ns' Hn.
+  - exists ns'. split; [exact Hn | apply Permutation_refl].
+  - cbn [S.omap_all] in *. destruct (f x) as [y|]; [|discriminate].
+    destruct (S.omap_all f l') as [ys'|] eqn:E; [|discriminate]. injection Hn as <-.
+    destruct (IHPermutation ys' eq_refl) as [ys [H1 H2]]. rewrite H1. exists (y :: ys). split; [reflexivity | constructor; exact H2].
+  - cbn [S.omap_all] in *. destruct (f x) as [a|]; [|discriminate]. destruct (f y) as [b|]; [|discriminate].
+    destruct (S.omap_all f l) as [r|]; [|discriminate]. injection Hn as <-.
+    exists (b :: a :: r). split; [reflexivity | apply perm_swap].
+  - destruct (IHPermutation2 ns' Hn) as [n2 [H2 P2]]. destruct (IHPermutation1 n2 H2) as [n1 [H1 P1]].
+    exists n1. split; [exact H1 | eapply Permutation_trans; eassumption].
+Qed.
+Lemma flat_rel_equiv : forall ly es fs, flat_rel ly es fs -> S.flat_equiv ly es fs.
+Proof.
+  intros ly es fs [es' [fs' [He [Hf H]]]]. unfold S.flat_equiv.
+  destruct (omap_all_perm _ _ (S.norm_raw_elem ly) es es' He _ (omap_all_Forall2 _ _ _ H)) as [ns [H1 H2]].
+  exists ns. split; [exact H1|]. eapply Permutation_trans; [exact H2|].
+  apply Permutation_map. apply Permutation_sym. exact Hf.
+Qed.
+
+
+(* ---- p7.v ---- *)
+Lemma zlist_eqb_eq : forall a b, zlist_eqb a b = true <-> a = b.
+Proof.
+  induction a as [|x a IH]; intros [|y b]; cbn; split; try discriminate; try reflexivity.
+  - intro H. apply andb_prop in H. destruct H as [H1 H2]. apply Z.eqb_eq in H1. apply IH in H2. subst. reflexivity.
+  - intro H. injection H as -> ->. rewrite Z.eqb_refl. apply IH. reflexivity.
+Qed.
+Lemma zlist_eqb_refl : forall a, zlist_eqb a a = true.
+Proof. intro a. apply zlist_eqb_eq. reflexivity. Qed.
+
+(** * struct names *)
+Lemma names_distinct_from_seen : forall l seen,
+  S.names_distinct_from seen l = true -> forall s, In s l -> existsb (zlist_eqb (G.s_name s)) seen = false.
+Proof.
+  induction l as [|x l IH]; intros seen H s Hs; [destruct Hs|]. cbn [S.names_distinct_from] in H.
+  apply andb_prop in H. destruct H as [H1 H2]. destruct Hs as [<- | Hs].
+  - apply negb_true_iff. exact H1.
+  - specialize (IH _ H2 s Hs). cbn [existsb] in IH. apply orb_false_elim in IH. exact (proj2 IH).
+Qed.
+Lemma find_struct_self_from : forall l seen,
+  S.names_distinct_from seen l = true -> forall s, In s l ->
+  find (fun t => zlist_eqb (G.s_name t) (G.s_name s)) l = Some s.
+Proof.
+  induction l as [|x l IH]; intros seen H s Hs; [destruct Hs|]. cbn [S.names_distinct_from] in H.
+  apply andb_prop in H. destruct H as [H1 H2]. cbn [find]. destruct Hs as [<- | Hs].
+  - rewrite zlist_eqb_refl. reflexivity.
+  - destruct (zlist_eqb (G.s_name x) (G.s_name s)) eqn:E.
+    + exfalso. apply zlist_eqb_eq in E.
+      pose proof (names_distinct_from_seen _ _ H2 s Hs) as Hn. cbn [existsb] in Hn.
+      rewrite <- E, zlist_eqb_refl in Hn. discriminate.
+    + eapply IH; eassumption.
+Qed.
+Lemma find_struct_self : forall g s,
+  S.names_distinct g = true -> In s (G.l_structs g) -> S.find_struct g (G.s_name s) = Some s.
+Proof. intros g s H Hs. unfold S.find_struct. eapply find_struct_self_from; eassumption. Qed.
+Lemma find_struct_name : forall g nm t, S.find_struct g nm = Some t -> G.s_name t = nm /\ In t (G.l_structs g).
+Proof.
+  intros g nm t H. unfold S.find_struct in H. apply find_some in H. destruct H as [H1 H2].
+  apply zlist_eqb_eq in H2. split; assumption.
+Qed.
+
+(** * cell map *)
+Lemma cm_get_app : forall cm nm0 k0 nm,
+  cm_get (cm ++ [(nm0, k0)]) nm =
+  match cm_get cm nm with Some k => Some k | None => if zlist_eqb nm0 nm then Some k0 else None end.
+Proof.
+  induction cm as [|[k v] cm IH]; intros nm0 k0 nm; cbn [app cm_get]; [reflexivity|].
+  destruct (zlist_eqb k nm); [reflexivity | apply IH].
+Qed.
+
+Section Lib.
+Variable g : G.library.
+
+Definition entry_ok (ly : layers) (cells : list cell) (cm : cell_map) (nm : G.bytes) (k : nat) : Prop :=
+  exists t c l cm', S.find_struct g nm = Some t /\ nth_error cells k = Some c /\ c_layout c = Some l /\
+    c_name c = str_of_bytes nm /\
+    (forall nm' k', cm_get cm' nm' = Some k' -> (k' < k)%nat /\ cm_get cm nm' = Some k') /\
+    items_rel ly cm' (G.s_elems t) (lay_elems l) (lay_insts l).
+Definition lib_inv (ly : layers) (cells : list cell) (cm : cell_map) : Prop :=
+  ly_inv ly /\ forall nm k, cm_get cm nm = Some k -> entry_ok ly cells cm nm k.
+Definition cm_sub (cm cm' : cell_map) : Prop := forall nm k, cm_get cm nm = Some k -> cm_get cm' nm = Some k.
+
+Lemma entry_ok_mono : forall ly ly' cells new cm cm2 nm k,
+  ly_mono ly ly' -> cm_sub cm cm2 -> entry_ok ly cells cm nm k -> entry_ok ly' (cells ++ new) cm2 nm k.
+Proof.
+  intros ly ly' cells new cm cm2 nm k Hm Hs (t & c & l & cm' & H1 & H2 & H3 & H4 & H5 & H6).
+  exists t, c, l, cm'. split; [exact H1|]. split; [rewrite nth_error_app1; [exact H2 | apply nth_error_Some; congruence]|].
+  split; [exact H3|]. split; [exact H4|]. split.
+  - intros nm' k' H. destruct (H5 nm' k' H) as [Ha Hb]. split; [exact Ha | apply Hs; exact Hb].
+  - eapply items_rel_mono; eassumption.
+Qed.
+
+Lemma import_and_add_inv : forall c st s st',
+  cfg_ok c -> S.find_struct g (G.s_name s) = Some s ->
+  lib_inv (is_layers st) (is_cells st) (is_map st) ->
+  import_and_add c st s = IOk st' ->
+  lib_inv (is_layers st') (is_cells st') (is_map st') /\
+  cm_sub (is_map st) (is_map st') /\ cm_get (is_map st') (G.s_name s) <> None.
+Proof.
+  intros c st s st' Hc Hfind [Hinv Hcm] H. unfold import_and_add in H.
+  destruct (cm_get (is_map st) (G.s_name s)) as [k|] eqn:Eget.
+  - injection H as <-. split; [split; assumption|]. split; [intros nm k' Hk; exact Hk | congruence].
+  - destruct (import_layout c (is_map st) (is_layers st) s) as [[ly' l]| | |] eqn:El; try discriminate.
+    cbn [ibind fst snd] in H. injection H as <-. cbn [is_layers is_cells is_map].
+    destruct (import_layout_rel _ _ _ _ _ _ Hc Hinv El) as [Hinv' [Hmono [Hname Hrel]]].
+    assert (Hsub : cm_sub (is_map st) (is_map st ++ [(G.s_name s, List.length (is_cells st))])).
+    { intros nm k Hk. rewrite cm_get_app, Hk. reflexivity. }
+    split; [|split; [exact Hsub | rewrite cm_get_app, Eget, zlist_eqb_refl; discriminate]].
+    split; [exact Hinv'|]. intros nm k Hk. rewrite cm_get_app in Hk.
+    destruct (cm_get (is_map st) nm) as [k0|] eqn:E0.
+    + injection Hk as <-. eapply entry_ok_mono; [exact Hmono | exact Hsub | apply Hcm; exact E0].
+    + destruct (zlist_eqb (G.s_name s) nm) eqn:En; [|discriminate]. injection Hk as <-.
+      apply zlist_eqb_eq in En. subst nm.
+      exists s, (mkcell (str_of_bytes (G.s_name s)) None (Some l)), l, (is_map st).
+      split; [exact Hfind|]. split; [rewrite nth_error_app2 by lia; rewrite Nat.sub_diag; reflexivity|].
+      split; [reflexivity|]. split; [reflexivity|]. split; [|exact Hrel].
+      intros nm' k' Hk'. split; [|apply Hsub; exact Hk'].
+      destruct (Hcm nm' k' Hk') as (t & c0 & l0 & cm' & _ & Hn & _). apply nth_error_Some. congruence.
+Qed.
+
+Lemma import_structs_inv : forall c order st st',
+  cfg_ok c ->
+  (forall i s, In i order -> nth_error (G.l_structs g) (N.to_nat i) = Some s -> S.find_struct g (G.s_name s) = Some s) ->
+  lib_inv (is_layers st) (is_cells st) (is_map st) ->
+  import_structs c (G.l_structs g) st order = IOk st' ->
+  lib_inv (is_layers st') (is_cells st') (is_map st') /\ cm_sub (is_map st) (is_map st') /\
+  forall i, In i order -> exists s, nth_error (G.l_structs g) (N.to_nat i) = Some s /\ cm_get (is_map st') (G.s_name s) <> None.
+Proof.
+  intros c. induction order as [|i order IH]; intros st st' Hc Hfind Hinv H; cbn [import_structs] in H.
+  - injection H as <-. split; [exact Hinv|]. split; [intros nm k Hk; exact Hk | intros i []].
+  - destruct (nth_error (G.l_structs g) (N.to_nat i)) as [s|] eqn:Es; [|discriminate].
+    destruct (import_and_add c st s) as [st1| | |] eqn:Ea; try discriminate. cbn [ibind] in H.
+    destruct (import_and_add_inv c st s st1 Hc (Hfind i s (or_introl eq_refl) Es) Hinv Ea) as [Hinv1 [Hsub1 Hget1]].
+    destruct (IH st1 st' Hc (fun j t Hj => Hfind j t (or_intror Hj)) Hinv1 H) as [Hinv' [Hsub' Hall]].
+    split; [exact Hinv'|]. split; [intros nm k Hk; apply Hsub', Hsub1, Hk|].
+    intros j [<- | Hj].
+    + exists s. split; [exact Es|]. destruct (cm_get (is_map st1) (G.s_name s)) as [k|] eqn:E; [|congruence].
+      rewrite (Hsub' _ _ E). discriminate.
+    + apply Hall. exact Hj.
+Qed.
+End Lib.
+
+
+(* ---- p8.v ---- *)
+(** * sconcat *)
+Lemma sconcat_not_err : forall (A : Type) (l : list (S.sres (list A))),
+  Forall (fun x => x <> S.SErr) l -> S.sconcat l <> S.SErr.
+Proof.
+  intros A l H. induction H as [|x l Hx Hl IH]; cbn [S.sconcat]; [discriminate|].
+  destruct x; [|exfalso; apply Hx; reflexivity|]; destruct (S.sconcat l); cbn; try discriminate; exfalso; apply IH; reflexivity.
+Qed.
+Lemma sconcat_ok : forall (A : Type) (l : list (S.sres (list A))) r,
+  S.sconcat l = S.SOk r -> exists ys, Forall2 (fun x y => x = S.SOk y) l ys /\ r = List.concat ys.
+Proof.
+  intros A l. induction l as [|x l IH]; intros r H; cbn [S.sconcat] in H.
+  - injection H as <-. exists []. split; constructor.
+  - destruct x as [a| |]; destruct (S.sconcat l) as [b| |]; cbn in H; try discriminate.
+    injection H as <-. destruct (IH b eq_refl) as [ys [H1 H2]]. exists (a :: ys). split; [constructor; auto|].
+    cbn [List.concat]. rewrite H2. reflexivity.
+Qed.
+Lemma sres_cases : forall (A : Type) (x : S.sres A), x <> S.SErr -> x <> S.SSilent -> exists a, x = S.SOk a.
+Proof. intros A [a| |] H1 H2; [exists a; reflexivity | exfalso; apply H1; reflexivity | exfalso; apply H2; reflexivity]. Qed.
+
+(** the contribution of one element to [flatten_struct (S f) g vis t] *)
+Definition comp (g : G.library) (f : nat) (vis' : list G.bytes) (e : G.element) : S.sres (list S.fshape) :=
+  let sub (nm : G.bytes) (pls : S.sres (list TS.splacement)) : S.sres (list S.fshape) :=
+      match S.find_struct g nm with
+      | None => S.SErr
+      | Some t => S.sbind2 pls (S.flatten_struct f g vis' t)
+                           (fun pls shapes => S.SOk (flat_map (fun pl => map (S.place_fshape pl) shapes) pls))
+      end in
+  match e with
+  | G.EBoundary b => S.smap (fun gm => [S.mkfs (G.b_layer b) (G.b_datatype b) gm]) (S.boundary_geom b)
+  | G.EBox b => S.smap (fun gm => [S.mkfs (G.x_layer b) (G.x_boxtype b) gm]) (S.box_geom b)
+  | G.EPath p => S.smap (fun gm => [S.mkfs (G.p_layer p) (G.p_datatype p) gm]) (S.path_geom p)
+  | G.ESref r => sub (G.sr_name r) (S.sref_placements r)
+  | G.EAref a => sub (G.ar_name a) (S.aref_placements a)
+  | G.EText _ | G.ENode _ => S.SOk []
+  end.
+Lemma flatten_struct_S : forall f g vis t,
+  S.flatten_struct (S f) g vis t =
+  if existsb (zlist_eqb (G.s_name t)) vis then S.SErr
+  else S.sconcat (map (comp g f (G.s_name t :: vis)) (G.s_elems t)).
+Proof. reflexivity. Qed.
+
+Lemma rflat_insts_app : forall f cells a b,
+  rflat_insts f cells (a ++ b) =
+  match rflat_insts f cells a, rflat_insts f cells b with
+  | Some x, Some y => Some (x ++ y)
+  | _, _ => None
+  end.
+Proof.
+  intros f cells a b. induction a as [|i a IH]; cbn [app rflat_insts].
+  - destruct (rflat_insts f cells b); reflexivity.
+  - rewrite IH. destruct (placement_of i); [|reflexivity]. destruct (rflat f cells (i_cell i)); [|reflexivity].
+    destruct (rflat_insts f cells a); [|reflexivity]. destruct (rflat_insts f cells b); [|reflexivity].
+    rewrite app_assoc. reflexivity.
+Qed.
+
+Section Sim.
+Variable g : G.library.
+Variable ly : layers.
+Variable cells : list cell.
+Variable cm : cell_map.
+Hypothesis Hlib : lib_inv g ly cells cm.
+
+(** what the induction provides for a position *)
+Definition sim_at (k : nat) : Prop :=
+  forall nm, cm_get cm nm = Some k ->
+  forall f vis, (forall v, In v vis -> exists kv, cm_get cm v = Some kv /\ (k < kv)%nat) ->
+  forall t, S.find_struct g nm = Some t ->
+  S.flatten_struct f g vis t <> S.SSilent ->
+  exists fs es, S.flatten_struct f g vis t = S.SOk fs /\
+                (forall fuel, (k < fuel)%nat -> rflat fuel cells k = Some es) /\ flat_rel ly es fs.
+
+(** the instances of one reference: placements pls of a cell whose flattening is known *)
+Lemma ref_flat : forall cell es' shapes insts pls,
+  flat_rel ly es' shapes ->
+  Forall (fun i => i_cell i = cell) insts -> Forall2 inst_rel insts pls ->
+  exists sub, (forall fuel, rflat fuel cells cell = Some es' -> rflat_insts fuel cells insts = Some sub) /\
+              flat_rel ly sub (flat_map (fun pl => map (S.place_fshape pl) shapes) pls).
+Proof.
+  intros cell es' shapes insts pls Hf Hc H2. induction H2 as [|i pl insts pls Hi H2 IH]; cbn [rflat_insts flat_map].
+  - exists []. split; [reflexivity | apply flat_rel_nil].
+  - inversion Hc as [|? ? Hci Hcr]; subst. destruct (IH Hcr) as [sub [Hs Hfr]].
+    destruct Hi as [p [Hp Hmap]]. eexists. split.
+    + intros fuel Hr. rewrite Hp, Hr, (Hs fuel Hr). reflexivity.
+    + apply flat_rel_app; [|exact Hfr]. apply flat_rel_place; assumption.
+Qed.
+
+Definition subc (f : nat) (vis' : list G.bytes) (nm : G.bytes) (pls : S.sres (list TS.splacement)) : S.sres (list S.fshape) :=
+  match S.find_struct g nm with
+  | None => S.SErr
+  | Some t => S.sbind2 pls (S.flatten_struct f g vis' t)
+                       (fun pls shapes => S.SOk (flat_map (fun pl => map (S.place_fshape pl) shapes) pls))
+  end.
+
+Lemma ref_sim : forall k f vis' cm' nm new sp,
+  (forall k', (k' < k)%nat -> sim_at k') ->
+  (forall nm' k', cm_get cm' nm' = Some k' -> (k' < k)%nat /\ cm_get cm nm' = Some k') ->
+  (forall v, In v vis' -> exists kv, cm_get cm v = Some kv /\ (k <= kv)%nat) ->
+  ref_ok cm' nm new sp ->
+  subc f vis' nm sp <> S.SErr /\
+  forall fs0, subc f vis' nm sp = S.SOk fs0 ->
+    exists sub, (forall fuel, (k <= fuel)%nat -> rflat_insts fuel cells new = Some sub) /\ flat_rel ly sub fs0.
+Proof.
+  intros k f vis' cm' nm new sp IHk Hpre Hvis [Hne [cell [Hcm [Hcells Hpl]]]].
+  destruct (Hpre _ _ Hcm) as [Hlt Hcm2].
+  destruct (proj2 Hlib _ _ Hcm2) as (t' & c' & l' & cm2 & Hfind & _).
+  assert (Hvis' : forall v, In v vis' -> exists kv, cm_get cm v = Some kv /\ (cell < kv)%nat).
+  { intros v Hv. destruct (Hvis v Hv) as [kv [A B]]. exists kv. split; [exact A | lia]. }
+  pose proof (IHk cell Hlt nm Hcm2 f vis' Hvis' t' Hfind) as Hsim.
+  unfold subc. rewrite Hfind. split.
+  - destruct (S.flatten_struct f g vis' t') as [sh| |] eqn:Esub.
+    + destruct sp; cbn; [discriminate | exfalso; apply Hne; reflexivity | discriminate].
+    + exfalso. destruct Hsim as [fs [es' [Habs _]]]; discriminate.
+    + destruct sp; cbn; [discriminate | exfalso; apply Hne; reflexivity | discriminate].
+  - intros fs0 Hc.
+    destruct sp as [pls| |] eqn:Ep; destruct (S.flatten_struct f g vis' t') as [sh| |] eqn:Esub; cbn in Hc; try discriminate.
+    injection Hc as <-.
+    destruct Hsim as [fs [es' [Hfs [Hrf Hrel]]]]; [discriminate|]. injection Hfs as <-.
+    destruct (ref_flat cell es' sh new pls Hrel Hcells (Hpl pls eq_refl)) as [sub [Hs Hfr]].
+    exists sub. split; [|exact Hfr]. intros fuel Hfuel. apply Hs. apply Hrf. lia.
+Qed.
+
+Lemma comp_sref : forall f vis' r, comp g f vis' (G.ESref r) = subc f vis' (G.sr_name r) (S.sref_placements r).
+Proof. reflexivity. Qed.
+Lemma comp_aref : forall f vis' a, comp g f vis' (G.EAref a) = subc f vis' (G.ar_name a) (S.aref_placements a).
+Proof. reflexivity. Qed.
+
+Lemma items_sim : forall k f vis' cm' es elems insts,
+  (forall k', (k' < k)%nat -> sim_at k') ->
+  (forall nm' k', cm_get cm' nm' = Some k' -> (k' < k)%nat /\ cm_get cm nm' = Some k') ->
+  (forall v, In v vis' -> exists kv, cm_get cm v = Some kv /\ (k <= kv)%nat) ->
+  items_rel ly cm' es elems insts ->
+  Forall (fun e => comp g f vis' e <> S.SErr) es /\
+  forall fss, Forall2 (fun e fs => comp g f vis' e = S.SOk fs) es fss ->
+    exists subs, (forall fuel, (k <= fuel)%nat -> rflat_insts fuel cells insts = Some subs) /\
+                 flat_rel ly (elems ++ subs) (List.concat fss).
+Proof.
+  intros k f vis' cm' es elems insts IHk Hpre Hvis H.
+  induction H as [| b es e elems insts He H IH | b es e elems insts He H IH | p es e elems insts He H IH
+                  | r es i elems insts Hr H IH | a es new elems insts Hr H IH | t es elems insts H IH | n es elems insts H IH].
+  - split; [constructor|]. intros fss HF. inversion HF; subst. exists []. split; [reflexivity | apply flat_rel_nil].
+  - (* boundary *)
+    destruct IH as [IH1 IH2]. destruct He as [Hres [Hne Hsh]]. split.
+    + constructor; [|exact IH1]. cbn [comp]. destruct (S.boundary_geom b); cbn; [discriminate | exfalso; apply Hne; reflexivity | discriminate].
+    + intros fss HF. inversion HF as [|? fs0 ? fss' Hc HF']; subst. destruct (IH2 fss' HF') as [subs [Hs Hfr]].
+      exists subs. split; [exact Hs|]. cbn [comp] in Hc. destruct (S.boundary_geom b) as [gm| |] eqn:Eg; cbn in Hc; try discriminate.
+      injection Hc as <-. cbn [List.concat app]. apply flat_rel_cons; [|exact Hfr]. split; [exact Hres | apply Hsh; reflexivity].
+  - (* box *)
+    destruct IH as [IH1 IH2]. destruct He as [Hres [Hne Hsh]]. split.
+    + constructor; [|exact IH1]. cbn [comp]. destruct (S.box_geom b); cbn; [discriminate | exfalso; apply Hne; reflexivity | discriminate].
+    + intros fss HF. inversion HF as [|? fs0 ? fss' Hc HF']; subst. destruct (IH2 fss' HF') as [subs [Hs Hfr]].
+      exists subs. split; [exact Hs|]. cbn [comp] in Hc. destruct (S.box_geom b) as [gm| |] eqn:Eg; cbn in Hc; try discriminate.
+      injection Hc as <-. cbn [List.concat app]. apply flat_rel_cons; [|exact Hfr]. split; [exact Hres | apply Hsh; reflexivity].
+  - (* path *)
+    destruct IH as [IH1 IH2]. destruct He as [Hres [Hne Hsh]]. split.
+    + constructor; [|exact IH1]. cbn [comp]. destruct (S.path_geom p); cbn; [discriminate | exfalso; apply Hne; reflexivity | discriminate].
+    + intros fss HF. inversion HF as [|? fs0 ? fss' Hc HF']; subst. destruct (IH2 fss' HF') as [subs [Hs Hfr]].
+      exists subs. split; [exact Hs|]. cbn [comp] in Hc. destruct (S.path_geom p) as [gm| |] eqn:Eg; cbn in Hc; try discriminate.
+      injection Hc as <-. cbn [List.concat app]. apply flat_rel_cons; [|exact Hfr]. split; [exact Hres | apply Hsh; reflexivity].
+  - (* sref *)
+    destruct IH as [IH1 IH2]. destruct (ref_sim k f vis' cm' _ _ _ IHk Hpre Hvis Hr) as [Hne Hok]. split.
+    + constructor; [rewrite comp_sref; exact Hne | exact IH1].
+    + intros fss HF. inversion HF as [|? fs0 ? fss' Hc HF']; subst. destruct (IH2 fss' HF') as [subs [Hs Hfr]].
+      rewrite comp_sref in Hc. destruct (Hok fs0 Hc) as [sub [Hsub Hfr0]].
+      exists (sub ++ subs). split.
+      * intros fuel Hfuel. change (i :: insts) with ([i] ++ insts). rewrite rflat_insts_app, (Hsub fuel Hfuel), (Hs fuel Hfuel). reflexivity.
+      * cbn [List.concat]. eapply flat_rel_perm; [| apply Permutation_refl | apply flat_rel_app; [exact Hfr0 | exact Hfr]].
+        rewrite !app_assoc. apply Permutation_app_tail. apply Permutation_app_comm.
+  - (* aref *)
+    destruct IH as [IH1 IH2]. destruct (ref_sim k f vis' cm' _ _ _ IHk Hpre Hvis Hr) as [Hne Hok]. split.
+    + constructor; [rewrite comp_aref; exact Hne | exact IH1].
+    + intros fss HF. inversion HF as [|? fs0 ? fss' Hc HF']; subst. destruct (IH2 fss' HF') as [subs [Hs Hfr]].
+      rewrite comp_aref in Hc. destruct (Hok fs0 Hc) as [sub [Hsub Hfr0]].
+      exists (sub ++ subs). split.
+      * intros fuel Hfuel. rewrite rflat_insts_app, (Hsub fuel Hfuel), (Hs fuel Hfuel). reflexivity.
+      * cbn [List.concat]. eapply flat_rel_perm; [| apply Permutation_refl | apply flat_rel_app; [exact Hfr0 | exact Hfr]].
+        rewrite !app_assoc. apply Permutation_app_tail. apply Permutation_app_comm.
+  - (* text *)
+    destruct IH as [IH1 IH2]. split; [constructor; [discriminate | exact IH1]|].
+    intros fss HF. inversion HF as [|? fs0 ? fss' Hc HF']; subst. cbn [comp] in Hc. injection Hc as <-.
+    destruct (IH2 fss' HF') as [subs [Hs Hfr]]. exists subs. split; [exact Hs | exact Hfr].
+  - (* node *)
+    destruct IH as [IH1 IH2]. split; [constructor; [discriminate | exact IH1]|].
+    intros fss HF. inversion HF as [|? fs0 ? fss' Hc HF']; subst. cbn [comp] in Hc. injection Hc as <-.
+    destruct (IH2 fss' HF') as [subs [Hs Hfr]]. exists subs. split; [exact Hs | exact Hfr].
+Qed.
+
+Lemma Forall2_map_ok : forall (A B : Type) (F : A -> S.sres B) l ys,
+  Forall2 (fun x y => x = S.SOk y) (map F l) ys -> Forall2 (fun e y => F e = S.SOk y) l ys.
+Proof.
+  intros A B F l. induction l as [|x l IH]; intros ys H; inversion H; subst; constructor; auto.
+Qed.
+
+Theorem sim_all : forall k, sim_at k.
+Proof.
+  intro k. induction k as [k IHk] using lt_wf_ind.
+  intros nm Hcm f vis Hvis t Hfind Hns.
+  destruct (proj2 Hlib _ _ Hcm) as (t0 & c & l & cm' & Hfind0 & Hnth & Hlay & _ & Hpre & Hrel).
+  rewrite Hfind in Hfind0. injection Hfind0 as <-.
+  destruct (find_struct_name _ _ _ Hfind) as [Hname _].
+  destruct f as [|f]; [exfalso; apply Hns; reflexivity|].
+  rewrite flatten_struct_S in *.
+  destruct (existsb (zlist_eqb (G.s_name t)) vis) eqn:Evis.
+  { exfalso. apply existsb_exists in Evis. destruct Evis as [v [Hv Hveq]]. apply zlist_eqb_eq in Hveq. subst v.
+    destruct (Hvis _ Hv) as [kv [Hkv Hlt]]. rewrite Hname, Hcm in Hkv. injection Hkv as <-. lia. }
+  assert (Hvis' : forall v, In v (G.s_name t :: vis) -> exists kv, cm_get cm v = Some kv /\ (k <= kv)%nat).
+  { intros v [<- | Hv]; [exists k; rewrite Hname; split; [exact Hcm | lia] |].
+    destruct (Hvis v Hv) as [kv [A B]]. exists kv. split; [exact A | lia]. }
+  destruct (items_sim k f (G.s_name t :: vis) cm' _ _ _ IHk Hpre Hvis' Hrel) as [Hne Hok].
+  assert (Hne' : Forall (fun x => x <> S.SErr) (map (comp g f (G.s_name t :: vis)) (G.s_elems t))).
+  { apply Forall_forall. intros x Hx. apply in_map_iff in Hx. destruct Hx as [e [<- He]].
+    rewrite Forall_forall in Hne. apply Hne. exact He. }
+  destruct (sres_cases _ _ (sconcat_not_err _ _ Hne') Hns) as [fs Hfs].
+  destruct (sconcat_ok _ _ _ Hfs) as [fss [HF ->]].
+  destruct (Hok fss (Forall2_map_ok _ _ _ _ _ HF)) as [subs [Hs Hfr]].
+  exists (List.concat fss), (lay_elems l ++ subs). split; [exact Hfs|]. split; [|exact Hfr].
+  intros fuel Hfuel. destruct fuel as [|fuel]; [lia|]. rewrite rflat_S, Hnth, Hlay, (Hs fuel) by lia. reflexivity.
+Qed.
+End Sim.
+
+
+(* ---- p9.v ---- *)
+Module DS := Order.DepOrderSpec.
+Module DP := Order.DepOrderFixed_proofs.
+
+(** every struct index is in the order the orderer returns *)
+Lemma gds_order_complete : forall structs order i,
+  gds_order structs = D.Ok order -> (i < List.length structs)%nat -> In (N.of_nat i) order.
+Proof.
+  intros structs order i H Hi. unfold gds_order in H.
+  destruct (DP.order_checked_sound _ _ _ _ _ H) as [[_ [Hin _]] _].
+  apply Hin. exists (N.of_nat i). split; [|apply DS.reach_refl].
+  unfold gds_items. apply in_map. apply in_seq. lia.
+Qed.
+
+Lemma lib_inv_init : forall g ly0, ly_inv ly0 -> lib_inv g ly0 [] [].
+Proof. intros g ly0 H. split; [exact H|]. intros nm k Hk. discriminate. Qed.
+
+(** the importer's result, opened up *)
+Lemma import_lib_inv : forall c ly0 g L,
+  cfg_ok c -> ly_inv ly0 -> S.names_distinct g = true ->
+  import_lib c ly0 g = IOk L ->
+  exists cm, lib_inv g (lib_layers L) (lib_cells L) cm /\
+             forall s, In s (G.l_structs g) -> cm_get cm (G.s_name s) <> None.
+Proof.
+  intros c ly0 g L Hc Hly Hnd H. unfold import_lib in H.
+  destruct (import_units c (G.l_units g)) as [u| | |]; try discriminate. cbn [ibind] in H.
+  destruct (gds_order (G.l_structs g)) as [order| | |] eqn:Eo; try discriminate.
+  destruct (import_structs c (G.l_structs g) (mkist ly0 [] []) order) as [st| | |] eqn:Es; try discriminate.
+  cbn [ibind] in H. injection H as <-. cbn [lib_layers lib_cells].
+  destruct (import_structs_inv g c order (mkist ly0 [] []) st Hc) as [Hinv [_ Hall]]; [| apply lib_inv_init; exact Hly | exact Es |].
+  - intros i s _ Hn. apply find_struct_self; [exact Hnd | eapply nth_error_In; exact Hn].
+  - exists (is_map st). split; [exact Hinv|]. intros s Hs.
+    destruct (In_nth_error _ _ Hs) as [i Hi].
+    assert (Hlt : (i < List.length (G.l_structs g))%nat) by (apply nth_error_Some; congruence).
+    destruct (Hall (N.of_nat i) (gds_order_complete _ _ _ Eo Hlt)) as [s' [Hn' Hget]].
+    rewrite Nat2N.id, Hi in Hn'. injection Hn' as <-. exact Hget.
+Qed.
+
+Lemma gds_flatten_unfold : forall g s,
+  S.names_distinct g = true -> In s (G.l_structs g) ->
+  S.gds_flatten g (G.s_name s) = S.flatten_struct (S (List.length (G.l_structs g))) g [] s.
+Proof.
+  intros g s Hnd Hs. unfold S.gds_flatten. rewrite Hnd. cbn [negb]. rewrite (find_struct_self g s Hnd Hs). reflexivity.
+Qed.
+
+(** * The main theorem, for every importer variant with the six repairs and every layer table
+    whose purposes are the importer's own *)
+Theorem import_flatten_gen : forall c ly0 g L,
+  cfg_ok c -> ly_inv ly0 -> S.names_distinct g = true ->
+  import_lib c ly0 g = IOk L ->
+  forall s, In s (G.l_structs g) -> S.gds_flatten g (G.s_name s) <> S.SSilent ->
+  exists k cl l fs es,
+    nth_error (lib_cells L) k = Some cl /\ c_name cl = str_of_bytes (G.s_name s) /\ c_layout cl = Some l /\
+    S.gds_flatten g (G.s_name s) = S.SOk fs /\ raw_flatten L k = T.Ok es /\ S.flat_equiv (lib_layers L) es fs.
+Proof.
+  intros c ly0 g L Hc Hly Hnd H s Hs Hns.
+  destruct (import_lib_inv c ly0 g L Hc Hly Hnd H) as [cm [Hinv Hall]].
+  destruct (cm_get cm (G.s_name s)) as [k|] eqn:Ek; [|exfalso; exact (Hall s Hs Ek)].
+  destruct (proj2 Hinv _ _ Ek) as (t & cl & l & cm' & Hfind & Hnth & Hlay & Hname & _ & _).
+  rewrite (gds_flatten_unfold g s Hnd Hs) in *.
+  destruct (sim_all g (lib_layers L) (lib_cells L) cm Hinv k (G.s_name s) Ek (S (List.length (G.l_structs g))) []
+                    (fun v Hv => match Hv with end) s (find_struct_self g s Hnd Hs) Hns) as [fs [es [Hfs [Hrf Hrel]]]].
+  exists k, cl, l, fs, es. split; [exact Hnth|]. split; [exact Hname|]. split; [exact Hlay|]. split; [exact Hfs|].
+  split; [|apply flat_rel_equiv; exact Hrel].
+  apply rflat_raw_flatten. apply Hrf. apply le_n_S. apply Nat.lt_le_incl. apply nth_error_Some. congruence.
+Qed.
+
+(** an imported library is never the image of a malformed GDSII library *)
+Theorem import_ok_not_malformed : forall c ly0 g L,
+  cfg_ok c -> ly_inv ly0 -> import_lib c ly0 g = IOk L -> ~ S.malformed g.
+Proof.
+  intros c ly0 g L Hc Hly H Hm. unfold S.malformed, S.malformedb in Hm.
+  apply andb_prop in Hm. destruct Hm as [Hnd Hex]. apply existsb_exists in Hex. destruct Hex as [s [Hs He]].
+  destruct (import_flatten_gen c ly0 g L Hc Hly Hnd H s Hs) as (k & cl & l & fs & es & _ & _ & _ & Hfs & _).
+  - intro Hsil. rewrite Hsil in He. discriminate.
+  - rewrite Hfs in He. discriminate.
+Qed.
+
+Lemma cfg_fixed_ok : cfg_ok cfg_fixed.
+Proof. repeat split. Qed.
+
+Lemma right_angle_facts : forall g, S.right_angle g ->
+  S.names_distinct g = true /\ forall s, In s (G.l_structs g) -> S.gds_flatten g (G.s_name s) <> S.SSilent.
+Proof.
+  intros g H. unfold S.right_angle, S.silentb in H. apply orb_false_elim in H. destruct H as [H1 H2].
+  apply negb_false_iff in H1. split; [exact H1|]. intros s Hs Hsil.
+  assert (Hex : existsb (fun s0 => S.is_ssilent (S.gds_flatten g (G.s_name s0))) (G.l_structs g) = true).
+  { apply existsb_exists. exists s. split; [exact Hs | rewrite Hsil; reflexivity]. }
+  rewrite Hex in H2. discriminate.
+Qed.
+
+Theorem import_flatten_fixed : forall g L,
+  import_lib cfg_fixed [] g = IOk L -> S.right_angle g ->
+  forall s, In s (G.l_structs g) ->
+  exists k cl l fs es,
+    nth_error (lib_cells L) k = Some cl /\ c_name cl = str_of_bytes (G.s_name s) /\ c_layout cl = Some l /\
+    S.gds_flatten g (G.s_name s) = S.SOk fs /\ raw_flatten L k = T.Ok es /\ S.flat_equiv (lib_layers L) es fs.
+Proof.
+  intros g L H Hra s Hs. destruct (right_angle_facts g Hra) as [Hnd Hns].
+  exact (import_flatten_gen cfg_fixed [] g L cfg_fixed_ok (Forall_nil _) Hnd H s Hs (Hns s Hs)).
+Qed.
